@@ -189,6 +189,150 @@ def make_conv(name, ta):
     return h
 
 
+# ---- through eval: compound assignment and update on every target form -------------------------------
+COMPOUND = {"+=": "ADD", "-=": "SUB", "*=": "MUL", "/=": "DIV", "%=": "MOD", "&=": "BAND",
+            "|=": "BOR", "^=": "BXOR", "<<=": "SHL", ">>=": "SHR", ">>>=": "USHR"}
+TARGETS = {
+    "global": "x = A; R = (x OP B); [R, x]",
+    "local": "(function(){ var x = A; var r = (x OP B); return [r, x]; })()",
+    "captured": "(function(){ var x = A; function g(){ return x; } var r = (x OP B); return [r, g()]; })()",
+    "member": "var o = {p: A}; R = (o.p OP B); [R, o.p]",
+    "element": "var o = {}; var k = 'k'; o[k] = A; R = (o[k] OP B); [R, o[k]]",
+    "array": "var o = [A]; R = (o[0] OP B); [R, o[0]]",
+}
+UPDATES = {
+    "global": "x = A; R = (PRE x POST); [R, x]",
+    "local": "(function(){ var x = A; var r = (PRE x POST); return [r, x]; })()",
+    "captured": "(function(){ var x = A; function g(){ return x; } var r = (PRE x POST); return [r, g()]; })()",
+    "member": "var o = {p: A}; R = (PRE o.p POST); [R, o.p]",
+    "element": "var o = {}; var k = 'k'; o[k] = A; R = (PRE o[k] POST); [R, o[k]]",
+    "array": "var o = [A]; R = (PRE o[0] POST); [R, o[0]]",
+}
+SMALL = [0, 1, -1, 7, 2 ** 31, 2 ** 53, NAN, INF, -0.0, 0.5, -2.5, 1e21, "", "3", "a", " 12 ", True, NULL, UNDEF]
+
+
+def _pair(res):
+    from microjs.values import JSArray
+    if not isinstance(res, JSArray) or len(res._elements) != 2:
+        return None
+    return res._elements
+
+
+def make_compound(opsym, target):
+    src = TARGETS[target].replace("OP", opsym)
+    opname = COMPOUND[opsym]
+
+    def h(i, j):
+        from ..jsrun import eval_concrete
+        a = D.to_engine(pick(i, SMALL))
+        b = D.to_engine(pick(j, SMALL))
+        want = oracle_binop(opname, a, b)
+        got = _pair(eval_concrete(src, {"A": a, "B": b}))
+        if got is None:
+            return "script did not return a pair"
+        if want is None:
+            return True
+        r1 = judge(got[0], want, lambda: "value of (%s) on %s target" % (src, target))
+        if r1 is not True:
+            return r1
+        return judge(got[1], want, lambda: "target after (%s), A=%s B=%s" % (src, D.show(a), D.show(b)))
+    h.__annotations__ = {"i": int, "j": int, "return": bool}
+    return h
+
+
+def make_update(kind, target):
+    pre_, post = {"x++": ("", "++"), "++x": ("++", ""), "x--": ("", "--"), "--x": ("--", "")}[kind]
+    src = UPDATES[target].replace("PRE ", pre_).replace(" POST", post)
+
+    def h(i):
+        from ..jsrun import eval_concrete
+        a = D.to_engine(pick(i, SMALL))
+        old = R.to_number(D.to_ref(a))
+        new = R.num_add(old, 1) if "++" in kind else R.num_sub(old, 1)
+        want_value = new if pre_ else old
+        got = _pair(eval_concrete(src, {"A": a}))
+        if got is None:
+            return "script did not return a pair"
+        r1 = judge(got[0], want_value, lambda: "value of (%s) for A=%s" % (src, D.show(a)))
+        if r1 is not True:
+            return r1
+        return judge(got[1], new, lambda: "target after (%s) for A=%s" % (src, D.show(a)))
+    h.__annotations__ = {"i": int, "return": bool}
+    return h
+
+
+TREE_OPS = {"+": "ADD", "-": "SUB", "*": "MUL", "/": "DIV", "%": "MOD", "|": "BOR", "&": "BAND", "^": "BXOR",
+            "<<": "SHL", ">>>": "USHR", ">>": "SHR", "<": "LT", ">=": "GE", "==": "EQ", "===": "SEQ", "**": "POW"}
+TREE_VALS = [7, 2.5, 2 ** 31, -0.0, 2 ** 53, "2"]
+
+
+def make_tree(left_assoc, s1, ops):
+    """(a o1 b) o2 c  /  a o1 (b o2 c) with a solver-chosen second operator and operands: mixes the
+    engine's int and float representations in intermediate results."""
+    syms = list(ops)
+
+    def h(o2, i, j, k):
+        from ..jsrun import eval_concrete
+        s2 = pick(o2, syms)
+        a, b, c = pick(i, TREE_VALS), pick(j, TREE_VALS), pick(k, TREE_VALS)
+        try:
+            if left_assoc:
+                want = R.binop(TREE_OPS[s2], R.binop(TREE_OPS[s1], a, b), c)
+                src = "(A %s B) %s C" % (s1, s2)
+            else:
+                want = R.binop(TREE_OPS[s1], a, R.binop(TREE_OPS[s2], b, c))
+                src = "A %s (B %s C)" % (s1, s2)
+        except Unspecified:
+            cover("unspecified-by-oracle")
+            return True
+        if want is R.UNSPEC:
+            return True
+        got = eval_concrete(src, {"A": a, "B": b, "C": c})
+        return judge(got, want, lambda: "%s with A=%s B=%s C=%s" % (src, D.show(a), D.show(b), D.show(c)))
+    h.__annotations__ = {"o2": int, "i": int, "j": int, "k": int, "return": bool}
+    return h
+
+
+def make_str_binop(op, slen):
+    """Both operands symbolic strings (every code point), for the operators that do not convert to number."""
+    def h(a, b):
+        pre(len(a) <= slen and len(b) <= slen)
+        known("KF-C06-nonbmp-order", op in ("LT", "LE", "GT", "GE")
+              and (any(ord(ch) > 0xFFFF for ch in a) or any(ord(ch) > 0xFFFF for ch in b)))
+        want = R.binop(op, a, b)
+        got = run_binop(op, a, b)
+        return judge(got, want, lambda: "%s %s %s" % (D.show(a), op, D.show(b)))
+    h.__annotations__ = {"a": str, "b": str, "return": bool}
+    return h
+
+
+def make_logic(kind):
+    """&&, ||, ?: and ! lowering: the selected operand itself is the result (no conversion)."""
+    src = {"and": "A && B", "or": "A || B", "cond": "A ? B : C", "notnot": "!!A"}[kind]
+
+    def h(i, j):
+        from ..jsrun import eval_concrete
+        grid = SMALL
+        a = D.to_engine(pick(i, grid))
+        b = D.to_engine(pick(j, grid))
+        t = R.to_boolean(D.to_ref(a))
+        got = eval_concrete(src, {"A": a, "B": b, "C": "else"})
+        if kind == "and":
+            want = a if not t else b
+        elif kind == "or":
+            want = a if t else b
+        elif kind == "cond":
+            want = b if t else "else"
+        else:
+            want = t
+        cover("judged")
+        same = (got is want) or (type(got) is type(want) and D.same(got, D.to_ref(want)))
+        return True if same else "%s with A=%s B=%s: engine %s, expected %s" % (
+            src, D.show(a), D.show(b), D.show(got), D.show(want))
+    h.__annotations__ = {"i": int, "j": int, "return": bool}
+    return h
+
+
 ARITH = ["ADD", "SUB", "MUL", "DIV", "MOD", "POW"]
 BITS = ["BAND", "BOR", "BXOR", "SHL", "SHR", "USHR"]
 REL = ["LT", "LE", "GT", "GE", "EQ", "NE", "SEQ", "SNE"]
@@ -247,4 +391,37 @@ def harnesses():
         if op != "BNOT":
             add("unop.%s.flt" % op, make_unop(op, "flt", 0), [dbl], group="unary", budget=60)
         add("unop.%s.int" % op, make_unop(op, "int", 0), [igr], group="unary", budget=60)
+    # F7: symbolic strings (every code point) for the operators that keep strings as strings
+    for op in ["ADD"] + REL:
+        add("binop.%s.str.str" % op, make_str_binop(op, 2),
+            ["both operands: every string of length <= 2 over all code points"],
+            group="binop sym str x str", per_path=20, budget=120, budget_thorough=300)
+    # F8: through eval - compound assignment / update on every target form, logical operators
+    for opsym in COMPOUND:
+        for target in TARGETS:
+            add("compound.%s.%s" % (COMPOUND[opsym], target), make_compound(opsym, target),
+                ["operands: solver-chosen indices into a %d-value mixed grid; driven through Context.eval" % len(SMALL)],
+                group="compound assignment", budget=150, functions=FNS + ("microjs.context.Context.eval",))
+    for kind in ("x++", "++x", "x--", "--x"):
+        for target in UPDATES:
+            add("update.%s.%s" % ({"x++": "postinc", "++x": "preinc", "x--": "postdec", "--x": "predec"}[kind], target),
+                make_update(kind, target), ["operand: index into the %d-value mixed grid" % len(SMALL)],
+                group="update operators", budget=60, functions=FNS + ("microjs.context.Context.eval",))
+    for kind in ("and", "or", "cond", "notnot"):
+        add("logic.%s" % kind, make_logic(kind), ["operands: indices into the mixed grid"], group="logical",
+            budget=120, functions=("microjs.context.Context.eval", "microjs.values.to_boolean"))
+    # F9: expression trees (int/float representation mix in intermediate results)
+    quick_ops = ["+", "-", "*", "/", "%", "|", "<<", ">>>", "<", "=="]
+    names = {"+": "add", "-": "sub", "*": "mul", "/": "div", "%": "mod", "|": "bor", "&": "band", "^": "bxor",
+             "<<": "shl", ">>>": "ushr", ">>": "shr", "<": "lt", ">=": "ge", "==": "eq", "===": "seq", "**": "pow"}
+    for assoc in (True, False):
+        for s1 in TREE_OPS:
+            core = s1 in quick_ops
+            add("tree.%s.%s" % ("left" if assoc else "right", names[s1]),
+                make_tree(assoc, s1, quick_ops if core else list(TREE_OPS)),
+                ["first operator %s, second operator: solver-chosen index into %d operators; operands: 3 indices "
+                 "into %s" % (s1, len(quick_ops if core else TREE_OPS), TREE_VALS)],
+                group="expression trees", budget=200, budget_thorough=400, per_path=20,
+                tier="quick" if core else "thorough", require=(),
+                functions=FNS + ("microjs.context.Context.eval",))
     return hs
